@@ -1,4 +1,5 @@
 """Discharging obligations (DESIGN 3.5): rewriter -> z3 (timeout) -> cvc5 (optional)."""
+import os
 import time
 
 import z3
@@ -127,6 +128,7 @@ class Stats:
         self.reach_checked = 0
         self.reach_failed = 0
         self.cvc5_cross = 0
+        self.cvc5_agree = 0
         self.cvc5_disagree = 0
 
     def merge(self, d):
@@ -139,7 +141,7 @@ class Stats:
     def as_dict(self):
         return {k: getattr(self, k) for k in
                 ("obligations", "rewriter", "z3_unsat", "cvc5_unsat", "sat", "unknown", "queries",
-                 "solver_s", "samples", "reach_checked", "reach_failed", "cvc5_cross",
+                 "solver_s", "samples", "reach_checked", "reach_failed", "cvc5_cross", "cvc5_agree",
                  "cvc5_disagree")}
 
 
@@ -289,6 +291,78 @@ def is_zero_by_ratnorm(a, b):
     return False
 
 
+def _forked(fn, timeout_s):
+    """run fn() in a forked child that is killed at the deadline; returns its (json-able) result or None"""
+    import json
+    import os
+    import select
+    import signal
+    rfd, wfd = os.pipe()
+    pid = os.fork()
+    if pid == 0:
+        try:
+            os.close(rfd)
+            os.write(wfd, json.dumps(fn()).encode())
+        except BaseException:
+            pass
+        finally:
+            os._exit(0)
+    os.close(wfd)
+    buf = b""
+    deadline = time.time() + timeout_s
+    try:
+        while True:
+            left = deadline - time.time()
+            if left <= 0:
+                break
+            rd, _, _ = select.select([rfd], [], [], left)
+            if not rd:
+                break
+            chunk = os.read(rfd, 1 << 16)
+            if not chunk:
+                break
+            buf += chunk
+    finally:
+        os.close(rfd)
+        try:
+            os.kill(pid, signal.SIGKILL)
+        except OSError:
+            pass
+        try:
+            os.waitpid(pid, 0)
+        except OSError:
+            pass
+    try:
+        return json.loads(buf.decode()) if buf else None
+    except ValueError:
+        return None
+
+
+# cross-check sampling: every CROSS_EVERY-th obligation that z3 discharged is re-decided by cvc5 (at most CROSS_MAX per job)
+CROSS_EVERY, CROSS_MAX = 40, 2
+
+
+def configure(tier):
+    """set by the runner before the jobs are forked"""
+    global CROSS_EVERY, CROSS_MAX
+    quick = tier != "thorough"
+    CROSS_EVERY = int(os.environ.get("VERIF_CVC5_EVERY", "40" if quick else "8"))
+    CROSS_MAX = int(os.environ.get("VERIF_CVC5_MAX", "2" if quick else "12"))
+
+
+def _maybe_cross(hyps, goal):
+    if CROSS_EVERY <= 0 or STATS.cvc5_cross >= CROSS_MAX or (STATS.z3_unsat % CROSS_EVERY) != 1:
+        return
+    t0 = time.time()
+    r = _forked(lambda: _cvc5_check(hyps, z3.Not(goal), 8000), 12.0)
+    STATS.solver_s += time.time() - t0
+    STATS.cvc5_cross += 1
+    if r == 'sat':
+        STATS.cvc5_disagree += 1
+    elif r == 'unsat':
+        STATS.cvc5_agree += 1
+
+
 def _cvc5_check(hyps, neg_goal, timeout_ms):
     """second opinion through an SMT-LIB2 dump; returns 'unsat' | 'sat' | 'unknown'"""
     try:
@@ -296,10 +370,21 @@ def _cvc5_check(hyps, neg_goal, timeout_ms):
         from cvc5 import Kind  # noqa
     except Exception:
         return 'unknown'
+    # symbol names carry identities like dxh0[p|junction:1:0]: '|' cannot occur in an SMT-LIB symbol -> rename
+    asserts = list(hyps) + [neg_goal]
+    consts, seen, stack = {}, set(), list(asserts)
+    while stack:
+        e = stack.pop()
+        if e.get_id() in seen:
+            continue
+        seen.add(e.get_id())
+        if z3.is_const(e) and e.decl().kind() == z3.Z3_OP_UNINTERPRETED:
+            consts[e.decl().name()] = e
+        stack.extend(e.children())
+    ren = [(c, z3.Const("v%d" % i, c.sort())) for i, (n, c) in enumerate(sorted(consts.items()))]
     s = z3.Solver()
-    for h in hyps:
-        s.add(h)
-    s.add(neg_goal)
+    for h in asserts:
+        s.add(z3.substitute(h, *ren) if ren else h)
     smt = s.to_smt2()
     try:
         slv = cvc5.Solver()
@@ -318,7 +403,10 @@ def _cvc5_check(hyps, neg_goal, timeout_ms):
             if o in ("sat", "unsat", "unknown"):
                 res = o
         return res or 'unknown'
-    except Exception:
+    except Exception as e:
+        if os.environ.get("SVX_DEBUG_CVC5"):
+            import sys
+            sys.stderr.write("cvc5: %r\n" % (e,))
         return 'unknown'
 
 
@@ -616,6 +704,7 @@ def check(hyps, goal, timeout_ms=None, sample=None, use_cvc5=False, want_model=T
         if sample is not None and len(STATS.samples) < 6:
             STATS.samples.append({"obligation": sample, "method": "z3 on the linear abstraction",
                                   "goal": _short(goal), "n_hyps": len(hyps)})
+        _maybe_cross(hyps, goal)
         return 'unsat', None, 'z3-abstract'
     if witness is not None and numeric_refutes(goal, witness[0], witness[1]):
         # the path's own witness point falsifies the goal: a counterexample candidate without search
@@ -630,6 +719,7 @@ def check(hyps, goal, timeout_ms=None, sample=None, use_cvc5=False, want_model=T
         if sample is not None and len(STATS.samples) < 6:
             STATS.samples.append({"obligation": sample, "method": "z3", "goal": _short(goal),
                                   "n_hyps": len(hyps)})
+        _maybe_cross(hyps, goal)
         return 'unsat', None, 'z3'
     if r == 'sat':
         STATS.sat += 1
